@@ -59,13 +59,24 @@ def cases(tier, seed):
             out.append(spec)
     n = 90 if tier == "quick" else 20000
     for spec in workload.standard_cases(tier, seed, n, n, opts_fn=opts, frag_share=0.3,
-                                        p={"icode_prob": 0.2, "variant_prob": 0.25, "na_prob": 0.25, "waters": [0, 2, 4]}):
+                                        p={"icode_prob": 0.2, "variant_prob": 0.25, "no_element_prob": 0.4, "nterm_amide_prob": 0.6, "hydrogens": ["none", "all", "all", "side"], "na_prob": 0.25, "waters": [0, 2, 4]}):
         spec["kind"] = "run"
         out.append(spec)
     # long stretches / whole chains of the real proteins
     for spec in workload.long_cases(seed, 7 if tier == "quick" else 420, opts_fn=opts,
                                     long_max=150 if tier == "quick" else 400):
         spec["kind"] = "run"
+        out.append(spec)
+    # re-fed protonated structures: every hydrogen present (amide H of the first residue included), written without
+    # the optional element columns
+    nr = 24 if tier == "quick" else 3000
+    rngr = random.Random(seed * 67 + 5)
+    for i in range(nr):
+        ff = ["PARSE", "AMBER", "PARSE", "CHARMM", "PARSE", "SWANSON"][i % 6]
+        spec = {"kind": "run", "w": "synth", "seed": seed * 70001 + i, "ff": ff,
+                "p": {"no_element_prob": 1.0, "nterm_amide_prob": 1.0, "hydrogens": ["all"], "na": False, "waters": [0, 2],
+                      "variant_prob": 0.1}}
+        spec["opts"] = opts(rngr, spec)
         out.append(spec)
     nt = 60 if tier == "quick" else 10000
     rng = random.Random(seed + 99)
